@@ -936,6 +936,16 @@ class Free:
 # ---------------------------------------------------------------------------
 # parse tree of the grammar parser -> typed tree of GramLoad.Grammar
 # ---------------------------------------------------------------------------
+def python_isa_table():
+    """issubclass(C, H) for the exception classes of GramLoad.PyExc and the handler classes of GramLoad.Handler
+    (`re.error` by its module name `error`; `other` is represented by `Exception` itself)"""
+    classes = {"KeyError": KeyError, "AttributeError": AttributeError, "TypeError": TypeError, "IndexError": IndexError,
+               "RecursionError": RecursionError, "AssertionError": AssertionError, "UnicodeDecodeError": UnicodeDecodeError,
+               "error": re.error, "OverflowError": OverflowError, "ValueError": ValueError, "Exception": Exception}
+    handlers = {"Exception": Exception, "ValueError": ValueError, "KeyError": KeyError, "error": re.error}
+    return {c: {h: issubclass(cv, hv) for h, hv in handlers.items()} for c, cv in classes.items()}
+
+
 class ShapeError(Exception):
     pass
 
@@ -1296,6 +1306,17 @@ class Prop(Check):
         "GramLoad.C23_regex_any_exception",
         "GramLoad.C23_narrow_handler_false",
         "GramLoad.C23_start_only_alias_false",
+        "GramLoad.C23_comments_model_total",
+        "GramLoad.C23_classified",
+        "GramLoad.C23_registration_needs_unregistered",
+        "GramLoad.C23_registration_only_reference",
+        "GramLoad.C23_txerror_needs_bad_param",
+        "GramLoad.C23_bad_param_value_spec",
+        "GramLoad.C23_txerror_first_param",
+        "GramLoad.C23_named_classes",
+        "GramLoad.C23_named_classes_compile",
+        "GramLoad.C23_handlers_spec",
+        "GramLoad.C23_except_exception_catches_all",
     ]
     DRIVER = "Drivers/GramLoad.lean"
     QUICK_CASES = 1400
@@ -1338,6 +1359,7 @@ class Prop(Check):
         return g
 
     def gen(self, rng, n, tier):
+        yield {"text": "", "opts": {}, "origin": "isa-table", "isa_table": True}
         for i in range(n):
             r = rng.fork(f"case{i}")
             kind = r.weighted([("valid", 12), ("ast", 50), ("tok", 18), ("free", 20)])
@@ -1389,6 +1411,9 @@ class Prop(Check):
         from textx import metamodel_from_str
         from textx.exceptions import TextXError
 
+        if case.get("isa_table"):
+            # the subclass table the handler specs (C23_handlers_spec) rest on, from the running interpreter
+            return {"tree": None, "langs": {}, "out": "ok", "isa_table": python_isa_table()}
         text, opts = case["text"], case.get("opts", {})
         ic = bool(opts.get("ignore_case"))
         obs = {"tree": None, "langs": {}}
@@ -1430,6 +1455,8 @@ class Prop(Check):
 
     # ---- model --------------------------------------------------------------
     def model_req(self, case, obs):
+        if "isa_table" in obs:
+            return {"op": "isa_table"}
         if "shape_error" in obs or obs.get("parse_recursion"):
             return None
         if obs["tree"] is None:
@@ -1439,13 +1466,32 @@ class Prop(Check):
     def compare(self, case, obs, out):
         if "err" in out:
             return f"model rejected the request: {out}"
-        got = obs["out"]
-        if got == out["out"] or got in out["alts"]:
+        if "isa_table" in obs:
+            if out.get("table") != obs["isa_table"]:
+                diff = [(c, h) for c, row in obs["isa_table"].items() for h, v in row.items()
+                        if out.get("table", {}).get(c, {}).get(h) is not v]
+                return f"exception hierarchy: issubclass differs from PyExc.isa at {diff}"
             return None
-        return f"outcome class: implementation {got} ({obs.get('msg', '')!r}), model {out['out']} (possible: {out['alts']})"
+        got = obs["out"]
+        if not (got == out["out"] or got in out["alts"]):
+            return f"outcome class: implementation {got} ({obs.get('msg', '')!r}), model {out['out']} (possible: {out['alts']})"
+        # the syntactic conditions of C23_classified, checked against the implementation's outcome directly
+        if "bad_param" in out:
+            if got == "txerror" and not out["bad_param"]:
+                return ("TextXError raised although no rule parameter lacks its string value "
+                        f"(C23_txerror_needs_bad_param; {obs.get('msg', '')!r})")
+            if got == "registration" and not out["unregistered"]:
+                return ("TextXRegistrationError raised although every referenced language is registered "
+                        f"(C23_registration_needs_unregistered; {obs.get('msg', '')!r})")
+            if (got not in ("ok", "syntax", "semantic") and not got.startswith("py:")
+                    and not out["bad_param"] and not out["unregistered"]):
+                return f"outcome {got} outside ok / syntax / semantic although C23_named_classes applies"
+        return None
 
     # ---- direct oracle ------------------------------------------------------
     def oracle(self, case, obs):
+        if "isa_table" in obs:
+            return None
         if "shape_error" in obs:
             return ("the parse tree of the grammar parser does not have the shape the model is stated for: "
                     + obs["shape_error"])
